@@ -8,9 +8,9 @@ def check(tier, seed):
     return G.generic_check(PID, "exploration", tier, seed, coq=False,
         rule="storms of lifecycle calls (start in 5 modes, stop, ponderhit, newgame, clearhash, resizehash, isready, issearching, wait) on one Search object from a controller goroutine with delays of 0..7 ms (inside the timer's 5 ms polling window): every call returns under a 15 s watchdog, results == accepted starts, start while an infinite/ponder search runs is rejected promptly, infinite/ponder searches deliver nothing before their stop/ponderhit, stale-timer scenario; the same run under a -race build: every reported data race is a violation (classified by the two access sites in /repo); a case = one storm",
         streams=[dict(name='lifecycle_storms', kind="monitor", shards=lambda t: 2 if t == "quick" else 8,
-                      args=lambda t, s, sh, path: ['c14-monitor', 40 if q else 1500, s * 1000 + sh]),
+                      args=lambda t, s, sh, path: ['c14-monitor', 40 if t == "quick" else 1500, s * 1000 + sh]),
                  dict(name='lifecycle_storms_race', kind="monitor", shards=lambda t: 2 if t == "quick" else 8,
-                      args=lambda t, s, sh, path: ['c14-monitor', 15 if q else 300, s * 1000 + sh], race=True)])
+                      args=lambda t, s, sh, path: ['c14-monitor', 15 if t == "quick" else 300, s * 1000 + sh], race=True)])
 
 
 def replay(path):
